@@ -1,7 +1,7 @@
 """C02 — run queue hands each entry to exactly one taker: Chase-Lev skeleton + owner discipline."""
 from core import strip, is_field, key_str, order_ge, key_mentions
 from facts import AnalysisBroken
-from rules import (nodeset, callpred, field_of, ev, Unevaluable, forced_edges, atom_from, is_load_of,
+from rules import (through_local, nodeset, callpred, field_of, ev, Unevaluable, forced_edges, atom_from, is_load_of,
                    is_cas_on, is_full_fence, one, some, base_var)
 import stale
 
@@ -86,8 +86,8 @@ def check_pop(ctx, P):
 
     # table over (B, T): B = value loaded from bottom, T = value loaded from top
     casT = is_cas_on(f, D, "top")
-    cas_ok = lambda leaf, pol: casT(strip(leaf)) and pol is True
-    cas_fail = lambda leaf, pol: casT(strip(leaf)) and pol is False
+    cas_ok = lambda leaf, pol: casT(through_local(f, leaf)) and pol is True
+    cas_fail = lambda leaf, pol: casT(through_local(f, leaf)) and pol is False
     first_b = [l for l in f.loads_of(D, "bottom")]
     isBn = nodeset([l.node for l in first_b])
     isTn = lambda n: n is first_t.node
@@ -208,7 +208,7 @@ def check_steal(ctx, P):
             site=badl[0].node if badl else None, construct="steal load order")
     # value return guarded by CAS success, EMPTY iff bottom - top <= 0
     casT = is_cas_on(f, D, "top")
-    cas_ok = lambda leaf, pol: casT(strip(leaf)) and pol is True
+    cas_ok = lambda leaf, pol: casT(through_local(f, leaf)) and pol is True
     isBn = nodeset([l.node for l in lb])
     isTn = nodeset([l.node for l in plain_t])
     o = ctx.ob("steal.claim", f, "the slot value is returned only after a successful CAS on top and only if bottom-top > 0",
